@@ -267,7 +267,8 @@ let id_loopcap st env : item list * env =
   let body = [let_ j (bin Mul (ev i) (ei 10));
               IExpr (asg (idx (ev fs) (ev i)) (lam st [] TInt [IExpr (bin Add (bin Mul (ev j) (ei 100)) (ev i))]));
               IExpr (asg (ev i) (bin Add (ev i) (ei 1)))] in
-  let items = [let_ z zero; var_ fs (EArrLit (List.init n (fun _ -> ev z), t0)); var_ i (ei 0);
+  (* distinct element cells: [z, z] would make every element the one cell of z *)
+  let items = [let_ z zero; var_ fs (EArrLit (List.init n (fun k -> if k = 0 && Rng.pct st.rng 30 then ev z else lam st [] TInt [IExpr (ei k)]), t0)); var_ i (ei 0);
                IExpr (EWhile (bin Lt0 (ev i) (ei n), EBlock body))]
               @ List.init n (fun k -> pr (ECall (idx (ev fs) (ei k), []))) in
   (items, bind (bindv env fs (TArr t0) BLet) (mkv ~prot:true i TInt BVar env.lvl))
@@ -291,6 +292,39 @@ let id_compose st env : item list * env =
   let l2 = lam st [(z, false, TInt)] TInt [IExpr (bin Sub (ev z) (lit st))] in
   ([IFunc fd; let_ h (call comp [l1; l2]); pr (ECall (ev h, [lit st])); pr (ECall (call comp [ev h; ev h], [filler st env]))],
    bindv (bind env cv) h t1 BLet)
+
+(* variables of the outermost function used two levels further in: the inner closure finds them
+   through the environment of the middle one (transitively captured); distinct multipliers and a
+   random order of use so that a wrong environment index shows in the value *)
+let id_deepcap st env : item list * env =
+  let outer = fresh st and a = fresh st and b = fresh st and c = fresh st and d = fresh st in
+  let mid = fresh st and e = fresh st and inner = fresh st and f = fresh st and res = fresh st in
+  flag st "deep_capture"; flag st "closure_escape";
+  let term (x, m) = bin Mul (ev x) (ei m) in
+  let sum l = match l with [] -> ei 0 | h :: t -> List.fold_left (fun acc x -> bin (if Rng.pct st.rng 25 then Sub else Add) acc (term x)) (term h) t in
+  let outer_vars = [(a, 1000); (b, 100); (c, 10); (d, 1)] in
+  let inner_uses = Rng.shuffle st.rng ((e, 7) :: (f, 3) :: outer_vars) in
+  let k = Rng.range st.rng 3 (List.length inner_uses) in
+  let rec take k l = if k <= 0 then [] else match l with [] -> [] | x :: t -> x :: take (k - 1) t in
+  let inner_uses = take k inner_uses in
+  let mid_uses = take (Rng.range st.rng 1 3) (Rng.shuffle st.rng outer_vars) in
+  let inner_body = (if Rng.bool st.rng then [IExpr (asg (ev d) (bin Add (ev d) (ei 1)))] else []) @ [IExpr (sum inner_uses)] in
+  let escaping = Rng.bool st.rng in
+  let mid_fd =
+    if escaping then
+      (* mid returns the inner closure: it is called after mid AND outer's callee frames are gone *)
+      fdef mid [(e, false, TInt)] t1 [IFunc (fdef inner [(f, false, TInt)] TInt inner_body); IExpr (ev inner)]
+    else
+      fdef mid [(e, false, TInt)] TInt
+        [IFunc (fdef inner [(f, false, TInt)] TInt inner_body);
+         IExpr (bin Sub (call inner [bin Add (ev e) (ei 1)]) (sum mid_uses))] in
+  let use_mid = if escaping then ECall (call mid [lit st], [lit st]) else call mid [lit st] in
+  let ofd = fdef outer [(a, false, TInt); (b, false, TInt)] TInt
+      [let_ c (bin Add (ev a) (lit st)); var_ d (bin Mul (ev b) (ei 2)); IFunc mid_fd;
+       IExpr (bin Add (use_mid) (bin Mul (ev d) (ei 100000)))] in
+  let ov = mkv ~fcost:50 ~firstclass:false ~fvars:[false; false] outer (TFun ([TInt; TInt], TInt)) BFunc env.lvl in
+  ([IFunc ofd; let_ res (call outer [lit st; lit st]); pr (ev res); pr (call outer [filler st env; lit st])],
+   bindv (bind env ov) res TInt BLet)
 
 (* ---- catch ------------------------------------------------------------------------------------------ *)
 let print_wrap i = EPrint (ev i)
@@ -582,5 +616,5 @@ let id_pipe st env : item list * env =
   (items, bind (bindv (bind (bind (bind env va3) vm3) vind) cap TInt BLet) vh)
 
 let all = [ "id_pipe", id_pipe; "id_order", id_order; "id_alias", id_alias; "id_counter", id_counter; "id_adder", id_adder;
-            "id_loopcap", id_loopcap; "id_reccap", id_reccap; "id_compose", id_compose; "id_catch", id_catch;
+            "id_loopcap", id_loopcap; "id_reccap", id_reccap; "id_compose", id_compose; "id_deepcap", id_deepcap; "id_catch", id_catch;
             "id_shadow", id_shadow; "id_shadow2", id_shadow2; "id_agg", id_agg; "id_tail", id_tail; "id_mutual", id_mutual ]
